@@ -50,6 +50,9 @@ CHECKS = {
          "Trusted: Debug renderings expose complete stage state.", "5/C18"),
  "C19": ("reference-free runtime monitor: both real decoders × 3 contexts × every code in make and break form: press⇔release pairing and injectivity of sequence→key",
          "Exhaustive.", "Trusted: none.", "5/C19"),
+ "C20": ("build-time probe + runtime monitor: one list of every public constructor / const accessor / predicate use expanded as run-time code (must build), as const items + static initialisers + Send/Sync assertions in a #![no_std] crate (rustc decides; failure = violation with the diagnostics as witness), and as a three-way const vs static vs run-time behavioural comparison; static Mutex<Keyboard> driven from 4 threads natively and under Miri's data-race detector",
+         "Const-evaluability and auto-traits are compile-time facts: a runtime monitor cannot observe them, so the deciding step for that half is rustc building the probe (category 'other'); the runtime half shows the const/static-built values behave identically and are usable across threads.",
+         "Trusted: rustc; probe_c20/uses.rs lists all public constructors/accessors (10 layouts + AnyLayout by value/by reference × both sets).", "5/C20"),
 }
 
 NOT_YET = {}
